@@ -406,8 +406,26 @@ func (vc *VC) havocAllHeaps(st *State) {
 			vc.assumes["fields of the struct types declared private in the contract files are written only by functions of their own package (unknown callees do not call back into it)"] = true
 			continue
 		}
+		if isChanGhostHeap(n) {
+			// the channel-operation ghosts count the operations executed by
+			// the verified function itself (and by callees whose contracts
+			// say so, see modularCall): unknown code does not change them
+			continue
+		}
 		vc.havocHeap(st, n)
 	}
+}
+
+// chanGhostNames are the ghost maps govc maintains at channel operations.
+var chanGhostNames = []string{"chsends", "chrecvs", "chcloses", "chlast", "chlastrecv"}
+
+func isChanGhostHeap(h string) bool {
+	for _, g := range chanGhostNames {
+		if h == quote("GH:"+g) {
+			return true
+		}
+	}
+	return false
 }
 
 func (vc *VC) bumpWatermark(st *State) {
